@@ -12,6 +12,7 @@ import (
 
 	netty "github.com/go-netty/go-netty"
 	"github.com/go-netty/go-netty/zz_verif/explore"
+	"github.com/go-netty/go-netty/zz_verif/hlib"
 	"github.com/go-netty/go-netty/zz_verif/mock"
 	"github.com/go-netty/go-netty/zz_verif/probes"
 	"github.com/go-netty/go-netty/zz_verif/vsched"
@@ -312,7 +313,7 @@ func runRoute(rc routeCase) (string, string) {
 	}
 	tr := mock.NewTransport("t")
 	ch := netty.NewChannel()(1, context.Background(), pl, tr, netty.AsyncExecutor())
-	netty.VerifAttachChannel(pl, ch)
+	hlib.AttachChannel(pl, ch)
 	payload := &struct{ x int }{7}
 	var msg any = []byte("payload")
 	_ = payload
@@ -539,7 +540,7 @@ func runGrow(gc growCase) (string, string) {
 	}
 	tr := mock.NewTransport("t")
 	ch := netty.NewChannel()(1, context.Background(), pl, tr, netty.AsyncExecutor())
-	netty.VerifAttachChannel(pl, ch)
+	hlib.AttachChannel(pl, ch)
 	model := make([]int, n)
 	for i := range model {
 		model[i] = i
